@@ -42,18 +42,37 @@ def bmp(w: int, h: int, seed: int = 0) -> bytes:
     # (every third bitmap is stored top-down: a negative biHeight, the picture is |biHeight| rows high)
 
 
-def jpeg(w: int, h: int, seed: int = 0) -> bytes:
-    """JPEG *container* (SOI, APP0/JFIF, DQT, SOF0 with the size, DHT-free SOS with a few entropy bytes, EOI).
+def jpeg(w: int, h: int, seed: int = 0, variant: int | None = None) -> bytes:
+    """JPEG *container* (SOI, APP0/JFIF, optional further segments, DQT, SOFn with the size, DHT-free SOS with a few entropy bytes, EOI).
 
-    Nothing in the pipeline under test decodes pixels; size sniffers read SOF0.
+    Nothing in the pipeline under test decodes pixels; size sniffers walk the segments up to the frame header.  The segment layout
+    varies with the seed the way real encoders vary: comment / application segments whose payload ends in 0xFF, quantisation tables of a
+    heavily compressed picture (entries clamped to 255), several tables, a restart interval, progressive frames (SOF2).
     """
+    v = seed % 6 if variant is None else variant
     app0 = b"\xff\xe0" + struct.pack(">H", 16) + b"JFIF\x00\x01\x01\x00\x00\x01\x00\x01\x00\x00"
     com = b"\xff\xfe" + struct.pack(">H", 2 + 9) + b"verif%04d" % (seed % 10000)
     dqt = b"\xff\xdb" + struct.pack(">H", 67) + b"\x00" + bytes([1 + (i + seed) % 50 for i in range(64)])
-    sof = b"\xff\xc0" + struct.pack(">HBHHB", 11, 8, h, w, 1) + b"\x01\x11\x00"
+    extra = b""
+    sof_marker = b"\xff\xc0"
+    if v == 1:
+        com = b"\xff\xfe" + struct.pack(">H", 2 + 10) + b"verif%04d" % (seed % 10000) + b"\xff"          # latin-1 text ending in y-diaeresis
+    elif v == 2:
+        dqt = b"\xff\xdb" + struct.pack(">H", 67) + b"\x00" + bytes([min(255, 40 + 9 * i) for i in range(64)])   # quality ~10: high frequencies clamped to 255
+    elif v == 3:
+        exif = b"Exif\x00\x00" + bytes(((seed * 31 + i * 7) % 256) for i in range(40)) + b"\xff\xff"
+        extra = b"\xff\xe1" + struct.pack(">H", 2 + len(exif)) + exif
+        sof_marker = b"\xff\xc2"                                                                          # progressive
+    elif v == 4:
+        dqt = dqt + b"\xff\xdb" + struct.pack(">H", 67) + b"\x01" + bytes([255 - (i % 3) for i in range(64)])   # second table
+        extra = b"\xff\xdd" + struct.pack(">HH", 4, 8)                                                     # restart interval
+    elif v == 5:
+        icc = b"ICC_PROFILE\x00\x01\x01" + bytes(((seed + i * 13) % 256) for i in range(64))
+        extra = b"\xff\xe2" + struct.pack(">H", 2 + len(icc)) + icc + b"\xff\xed" + struct.pack(">H", 2 + 14) + b"Photoshop 3.0\x00"
+    sof = sof_marker + struct.pack(">HBHHB", 11, 8, h, w, 1) + b"\x01\x11\x00"
     sos = b"\xff\xda" + struct.pack(">HB", 8, 1) + b"\x01\x00" + b"\x00\x3f\x00"
     ent = bytes(((seed * 17 + i * 29) % 0xFE) for i in range(24))
-    return b"\xff\xd8" + app0 + com + dqt + sof + sos + ent + b"\xff\xd9"
+    return b"\xff\xd8" + app0 + com + extra + dqt + sof + sos + ent + b"\xff\xd9"
 
 
 CODECS = {
